@@ -27,6 +27,9 @@ def components():
             out.append(("decoder", nm))
             if nm.split("-")[0] in ("syndrome", "bruteforce", "bm", "reed", "wagner"):
                 out.append(("decoder-errors", nm))       # (message, error pattern) returned with return_errors=True
+            if nm.split("-")[0] in ("syndrome", "bruteforce", "bm", "reed", "hamming"):
+                out.append(("decoder-int32", nm))        # integer-typed words (dtype-dependent code paths, shared tables)
+                out.append(("decoder-int64", nm))
     for nm in ("bpsk", "qpsk", "psk8", "qam16", "pam4", "qam64"):
         out.append(("modulator", nm))
         out.append(("demod-hard", nm))
@@ -101,7 +104,7 @@ def build(kind, nm):
         w[0] = 1 - w[0]
         words.append(w)
         return (lambda x: enc.inverse_encode(x)[0]), words, n, True
-    if kind in ("decoder", "decoder-errors"):
+    if kind in ("decoder", "decoder-errors", "decoder-int32", "decoder-int64"):
         soft = nm.split("-")[0] in ("wagner", "bp", "minsum", "sc", "polarbp", "softrm")
         if nm.endswith("hamming") or nm == "hamming-inverse":
             enc = E.HammingCodeEncoder(3)
@@ -145,6 +148,9 @@ def build(kind, nm):
             mags = [0.7 + 0.31 * i for i in range(n)]
             pool = [torch.tensor([(1 - 2 * float(b)) * mags[(i + 3 * j) % n] for i, b in enumerate(wd.tolist())], dtype=f32) for j, wd in enumerate(pool)]
             pool.append(torch.tensor([0.0] * n, dtype=f32))          # all ties
+        if kind in ("decoder-int32", "decoder-int64"):
+            dt = torch.int32 if kind.endswith("32") else torch.int64
+            pool = [w.to(dt) for w in pool]
         return f, pool, n, not soft or head in ("wagner", "sc", "softrm")
     if kind in ("modulator", "demod-hard", "demod-soft"):
         import kaira.modulations as M
@@ -194,7 +200,7 @@ def execute(p, res):
     kind, nm = p["kind"], p["name"]
     comp = f"{kind}:{nm}"
     f, pool, nin, exact = build(kind, nm)
-    tol = 1e-5 if (kind in ("decoder", "decoder-errors") or kind == "constraint") else 1e-6
+    tol = 1e-5 if (kind.startswith("decoder") or kind == "constraint") else 1e-6
     is_2d_member = pool[0].dim() == 2
     v = lambda layout, clause, d, foc=None: res.viol(comp, layout, clause, d, foc)  # noqa: E731
 
@@ -212,6 +218,9 @@ def execute(p, res):
             r = call(m.unsqueeze(0))
             ref.append(r[0])
         except Exception as e:  # noqa: BLE001
+            if kind in ("decoder-int32", "decoder-int64"):
+                res.rejected += 1          # the component declines integer words altogether: allowed
+                return
             v("B=1", "raises", f"member {i} alone as a batch of one: {type(e).__name__}: {str(e)[:160]}")
             return
     # 1-D presentation: agree or raise
@@ -263,7 +272,7 @@ def execute(p, res):
                 break
     # (B, b*n) several blocks per row: agree with per-block evaluation or raise (block codes / modems concatenate along the last dim)
     if not is_2d_member:
-        if kind in ("encoder", "inverse", "decoder", "modulator", "demod-hard", "demod-soft"):   # (not decoder-errors: two concatenated outputs)
+        if kind in ("encoder", "inverse", "decoder", "decoder-int32", "decoder-int64", "modulator", "demod-hard", "demod-soft"):   # (not decoder-errors: two concatenated outputs)
             for b in (2, 3):
                 for sel in list(product(range(len(pool)), repeat=b))[::3]:
                     X = torch.cat([pool[i] for i in sel]).unsqueeze(0)
